@@ -349,9 +349,15 @@ func (d *dealer) yield(callee *wamp.Session, msg *wamp.Yield) {
 	var again bool
 	progress, _ := msg.Options[wamp.OptProgress].(bool)
 
+	// The meta session answers the meta procedure calls of every session in
+	// the realm, and publishes the meta events. It does not wait for a caller
+	// that is not reading its results: that RESULT is dropped and the call
+	// canceled, instead of stalling the realm while retrying.
+	canRetry := callee.ID != metaID
+
 	done := make(chan struct{})
 	d.actionChan <- func() {
-		again = d.syncYield(callee, msg, progress, true)
+		again = d.syncYield(callee, msg, progress, canRetry)
 		done <- struct{}{}
 	}
 	<-done
